@@ -44,6 +44,9 @@ class Sym:
         return hash(('Sym', self.name))
 
 
+_PURE_BUILTINS: Dict[str, Any] = {'range': range, 'min': min, 'max': max, 'abs': abs, 'int': int, 'tuple': tuple, 'frozenset': frozenset, 'sorted': sorted}
+
+
 class Evaluator:
     def __init__(self, prog: Program, module: Module, atoms: Dict[str, Any], locals_: Optional[Dict[str, Any]] = None) -> None:
         self.prog = prog
@@ -137,6 +140,13 @@ class Evaluator:
                     return len(v)
             if fn in ('cast',) and len(e.args) == 2:
                 return self.ev(e.args[1])
+            if fn in _PURE_BUILTINS and not e.keywords and isinstance(e.func, ast.Name) and fn not in self.locals:
+                vals = [self.ev(a) for a in e.args]
+                if all(v is not UNKNOWN and not isinstance(v, Sym) for v in vals):
+                    try:
+                        return _PURE_BUILTINS[fn](*vals)
+                    except Exception:  # noqa: BLE001
+                        return UNKNOWN
             if isinstance(e.func, ast.Attribute) and e.func.attr == 'get' and e.args and not e.keywords:
                 d = self.ev(e.func.value)
                 if isinstance(d, dict):
